@@ -96,3 +96,56 @@ have IV : invmx H = \matrix_(i, j) (if i == j then 1 else if (i == 0) then -1 el
 move/matrixP/(_ 0 0): E; rewrite IV !mxE !big_ord_recl !big_ord0 !mxE /= !big_ord_recl !big_ord0 !mxE /=.
 by rewrite !mulr0 !mul0r !mulr1 !mul1r !addr0 !add0r => /eqP; rewrite eq_sym oppr_eq0 oner_eq0.
 Qed.
+
+(* ---- the premise `col i S = dsm1 i` discharged from C08's loop model (Geom/Sources.v) ----
+   S is what the DipSourceMat model returns for the batch, dsm1 i what it returns for dipole i alone (each from
+   arbitrary initial buffer contents): then the adjoint gains equal the direct ones, with no column premise left. *)
+From Coq Require ZArith List.
+From OM Require Import Base.Ops Geom.AdaptInt Geom.Sources Geom.GainBridge.
+Section C04_with_C08.
+Variable R : fieldType.
+Variable contains : domain (F:=R) -> pt (F:=R) -> bool.
+Variable IDer : dipole (F:=R) -> triangle (F:=R) -> pt (F:=R).
+Variable IPot : dipole (F:=R) -> triangle (F:=R) -> R.
+Variable K : R.
+Variable geo : geometry (F:=R).
+Variable named : option BinNums.Z.
+Variables n me mm nd : nat.
+Variable ds : list (dipole (F:=R)).
+Variable d0 : dipole (F:=R).
+Variables init init1 : list R.
+Variable M : list (list R).
+Variable H : 'M[R]_n.
+Variable A : 'M[R]_(me, n).
+Variable B : 'M[R]_(mm, n).
+Variable P : 'M[R]_(mm, nd).
+Variable solveLin : 'M[R]_n -> forall k, 'M[R]_(n, k) -> 'M[R]_(n, k).
+Hypothesis solveLin_spec : forall (X : 'M[R]_n) k (Y : 'M[R]_(n, k)), X \in unitmx -> solveLin X Y = invmx X *m Y.
+
+Theorem adjoint_eq_direct_dsm :
+  List.length ds = nd -> List.length init = g_size geo -> List.length init1 = g_size geo ->
+  DSM (FOps R) contains IDer IPot K geo named init ds = Some M ->
+  H^T = H -> H \in unitmx ->
+  gain_adjoint H A (dsm1_of contains IDer IPot K geo named n ds d0 init1) solveLin
+  = gain_direct A (S_of n nd M) (invmx H).
+Proof. move=> Hd Hi Hi1 Hb Hs Hu; exact: (GainBridge.adjoint_eq_direct_dsm d0 Hd Hi Hi1 Hb A solveLin_spec Hs Hu). Qed.
+
+Theorem meg_adjoint_eq_direct_dsm :
+  List.length ds = nd -> List.length init = g_size geo -> List.length init1 = g_size geo ->
+  DSM (FOps R) contains IDer IPot K geo named init ds = Some M ->
+  H^T = H -> H \in unitmx ->
+  gain_meg_adjoint H B P (dsm1_of contains IDer IPot K geo named n ds d0 init1) solveLin
+  = gain_meg_direct B (S_of n nd M) P (invmx H).
+Proof. move=> Hd Hi Hi1 Hb Hs Hu; exact: (GainBridge.meg_adjoint_eq_direct_dsm d0 Hd Hi Hi1 Hb B P solveLin_spec Hs Hu). Qed.
+End C04_with_C08.
+Print Assumptions adjoint_eq_direct_dsm.
+Print Assumptions meg_adjoint_eq_direct_dsm.
+
+(* ---- sanity of the executable reference the implementation is compared with (exact rational arithmetic) ---- *)
+From OM Require Geom.GainFloat Geom.GainFloatExamples Geom.AdaptIntProofs.
+Example reference_solve_exact :
+  GainFloatExamples.qmat_eq
+    (GainFloat.matmul AdaptIntProofs.QOps GainFloatExamples.exH
+       (GainFloat.solve AdaptIntProofs.QOps GainFloatExamples.exH GainFloatExamples.exS) 2)
+    GainFloatExamples.exS = true.
+Proof. exact GainFloatExamples.solve_exact_example. Qed.
